@@ -58,6 +58,8 @@ impl Workload {
             v.push((p, Req::Write { key: 900 + p as u64 }));
             for r in ph { v.push((p, r.clone())); }
         }
+        // the closing write: when it is answered every earlier message has been through the writer
+        v.push((self.phases.len(), Req::Write { key: 999 }));
         v
     }
 }
@@ -412,7 +414,6 @@ async fn child(dir: PathBuf, spec: PathBuf, mode: u8, k: u64, out: PathBuf) {
             _ = tokio::time::sleep(Duration::from_millis(10000)) => {}
         }
         for r in phase {
-            debug_assert!(matches!(&flat[idx].1, _x));
             let i = idx;
             idx += 1;
             let (lg, pd) = (log.clone(), pending.clone());
@@ -516,8 +517,28 @@ async fn child(dir: PathBuf, spec: PathBuf, mode: u8, k: u64, out: PathBuf) {
         while pending.load(Ordering::SeqCst) > 0 && tokio::time::Instant::now() < deadline { tokio::time::sleep(Duration::from_millis(1)).await; }
         if pending.load(Ordering::SeqCst) > 0 { log.line(format!("T {}", pi)); }
     }
-    // a recompute request has no acknowledgement: give the writer time to run it
-    tokio::time::sleep(Duration::from_millis(15)).await;
+    // a recompute request has no acknowledgement. The database actor forwards messages in order, so once it has
+    // answered a DataModel request every recompute is in the writer's queue; the closing write queues behind them
+    {
+        let (reply, recv) = tokio::sync::oneshot::channel();
+        let _ = svc.sender.send(DbMessage::DataModel(reply)).await;
+        let _ = tokio::time::timeout(Duration::from_millis(20000), recv).await;
+        let (reply, recv) = tokio::sync::oneshot::channel();
+        let stmt: WriteStmt = Box::new(ConfWrite { key: 999 });
+        pending.fetch_add(1, Ordering::SeqCst);
+        let _ = svc.db.writer.send(WriteMessage::Write(stmt, reply)).await;
+        let (lg, pd, i) = (log.clone(), pending.clone(), idx);
+        tokio::spawn(async move {
+            let (code, msg) = match recv.await { Ok(Ok(_)) => (1, String::new()), Ok(Err(e)) => (2, e.to_string().replace('\n', " ")), Err(_) => (3, String::new()) };
+            lg.line(format!("A {} {} {}", i, code, msg));
+            pd.fetch_sub(1, Ordering::SeqCst);
+        });
+        let deadline = tokio::time::Instant::now() + Duration::from_millis(20000);
+        while pending.load(Ordering::SeqCst) > 0 && tokio::time::Instant::now() < deadline { tokio::time::sleep(Duration::from_millis(1)).await; }
+        if pending.load(Ordering::SeqCst) > 0 { log.line(format!("T {}", w.phases.len())); }
+        // the writer thread is behind the acknowledgement loop of the closing batch
+        tokio::time::sleep(Duration::from_millis(3)).await;
+    }
     let (hits, fired) = (vf::hits(), vf::fired());
     vf::disarm();
     // live view: what a later query on another connection sees
@@ -787,9 +808,9 @@ fn parent() {
     ];
     // write_buffer_length 1 and 2: every request its own batch / batches of two
     workloads.push(Workload { key: fixed_key(9), n_setup: 2, gate_ms: 12, buffer: 1, phases: vec![
-        vec![Req::Mut { persons: vec![(111, vec![112])], stream: true }, Req::Upd { target: 0, label: 113 }, Req::Del { target: 1 }]] });
+        vec![Req::Mut { persons: vec![(111, vec![112])], stream: true }, Req::Del { target: 1 }]] });
     workloads.push(Workload { key: fixed_key(10), n_setup: 2, gate_ms: 12, buffer: 2, phases: vec![
-        vec![Req::Mut { persons: vec![(121, vec![])], stream: false }, Req::Nodes { labels: vec![122, 123] }, Req::Write { key: 124 }, Req::Compute, Req::Del { target: 0 }]] });
+        vec![Req::Upd { target: 0, label: 121 }, Req::Nodes { labels: vec![122, 123] }, Req::Compute]] });
     let n_random = scale(2, 40);
     for _ in 0..n_random { let np = 1 + rng.below(scale(2, 3) as u64) as usize; workloads.push(gen_workload(&mut rng, np, scale(3, 4))); }
     let par: usize = std::env::var("VERIF_C13_PAR").ok().and_then(|s| s.parse().ok()).unwrap_or(12);
@@ -828,7 +849,17 @@ fn parent() {
     for (wid, r) in &free {
         let points: Vec<u8> = r.trace.iter().filter(|t| t.0 <= vf::P_ACK).map(|t| t.0).collect();
         hits_free[*wid] = points.len() as u64;
+        // quick tier: the batches that hold nothing but a gate / the closing write are harness machinery and all alike:
+        // only the first of them is enumerated (thorough: all)
+        let comp = batches_of(&r.trace);
+        let mut batch_of_hit = vec![];
+        let mut b = 0usize;
+        for p in &points { if *p == vf::P_BEGIN { b += 1; } batch_of_hit.push(b.saturating_sub(1)); }
+        let gate_only = |bi: usize| comp.get(bi).map(|m| m.len() == 1 && m[0] == (9u8, 1usize)).unwrap_or(false);
+        let first_gate = (0..comp.len()).find(|bi| gate_only(*bi));
         for (i, p) in points.iter().enumerate() {
+            let bi = batch_of_hit[i];
+            if !tier_thorough() && gate_only(bi) && Some(bi) != first_gate { continue; }
             jobs.push((*wid, vf::MODE_KILL, i as u64 + 1));
             if [vf::P_BEGIN, vf::P_GROUP, vf::P_MARKS, vf::P_COMMIT].contains(p) { jobs.push((*wid, vf::MODE_FAIL, i as u64 + 1)); }
         }
